@@ -106,7 +106,10 @@ def gen_item(rng, idx, quick, ragged=False, force=None):
         pol.update({'entry_every': 1, 'long_phase': 0, 'allow_short': False, 'entry_offsets': (0,), 'max_entry_rows': 1,
                     'max_exit_rows': 1, 'p_cancel': 0.0, 'p_edit': 0.0, 'p_liquidate': 0.0,
                     'sl_dist': (near, near + 2), 'tp_dist': (near, near + 2)})
-    return dict(typ=typ, nsym=1, ttf=ttf, dtfs=dtfs, warm=rng.choice([0, 0, 240]), n=n, seed=seed, policy=pol,
+    warm = rng.choice([0, 0, 240])
+    if idx % 5 == 4:          # warm-up minutes that are NOT a multiple of the route timeframes (247 = 13 * 19; 240 is not one of 45m)
+        warm = 247
+    return dict(typ=typ, nsym=1, ttf=ttf, dtfs=dtfs, warm=warm, n=n, seed=seed, policy=pol,
                 fee=rng.choice([0.0, 1 / 1024, 0.0006]), lev=rng.choice([1, 2, 5]),
                 levmode=rng.choice(['cross', 'cross', 'cross', 'isolated']), chunk=chunk, ragged=bool(ragged),
                 candle_policy=bool(reads),
